@@ -25,7 +25,7 @@ Definition sched18 : list choice :=
   (* worker 0: takes the channel, serves request 0; the client accepts nothing yet (send -> 0);
      keep branch: pops request 0, requests == [], self.request expects: send_continue() --
      acquires outbuf_lock, appends the interim response, enters _flush_some and fetches the chunk *)
-  repeat (CWk 0 ENone) 14 ++ [CWk 0 (ESend 5 0)] ++ repeat (CWk 0 ENone) 13 ++
+  repeat (CWk 0 ENone) 15 ++ [CWk 0 (ESend 5 0)] ++ repeat (CWk 0 ENone) 13 ++
   (* I/O: writable; handle_write reads requests == [] and runs _flush_some WITHOUT the lock:
      fetches the same chunk and sends all 7 bytes *)
   [CIo ENone; CIo (ESel false true); CIo ENone; CIo ENone; CIo ENone; CIo ENone; CIo (ESend 7 7)] ++
